@@ -14,31 +14,62 @@ RULE = ("each of MinLength, MaxLength, Pattern, UniqueItems, Enum, EnumCase, Min
         "with at least 2 elements or a multi-byte string, distinct by hash")
 
 
-def has_cross_numeric(v):
-    """two numerically equal numbers of different Go types somewhere in one slice"""
+def _is_num(e):
+    return isinstance(e, dict) and isinstance(e.get("v"), (int, float)) and not isinstance(e.get("v"), bool)
+
+
+def has_cross_type(v):
+    """two equal values of different Go types somewhere in one slice: numerically equal numbers of different
+    numeric types, or a defined string type and a plain string with the same text"""
     if not isinstance(v, dict):
         return False
     if v.get("t", "").startswith("[]"):
-        nums = {}
+        nums, strs = {}, {}
         for e in v.get("v") or []:
-            if isinstance(e, dict) and isinstance(e.get("v"), (int, float)) and not isinstance(e.get("v"), bool):
+            if _is_num(e):
                 nums.setdefault(float(e["v"]), set()).add(e["t"])
-            if has_cross_numeric(e):
+            if isinstance(e, dict) and e.get("t") in ("string", "named"):
+                strs.setdefault(e.get("hex", ""), set()).add(e["t"])
+            if has_cross_type(e):
                 return True
-        return any(len(ts) > 1 for ts in nums.values())
+        return any(len(ts) > 1 for ts in nums.values()) or any(len(ts) > 1 for ts in strs.values())
     if v.get("t") == "map":
-        return any(has_cross_numeric(e) for e in (v.get("v") or {}).values())
+        return any(has_cross_type(e) for e in (v.get("v") or {}).values())
     return False
+
+
+def nested_nums(v, top=True):
+    """(value, type) of the numbers nested inside a slice or map (not the value itself)"""
+    out = set()
+    if not isinstance(v, dict):
+        return out
+    if v.get("t", "").startswith("[]"):
+        for e in v.get("v") or []:
+            if _is_num(e):
+                out.add((float(e["v"]), e["t"]))
+            out |= nested_nums(e, False)
+    elif v.get("t") == "map":
+        for e in (v.get("v") or {}).values():
+            if _is_num(e):
+                out.add((float(e["v"]), e["t"]))
+            out |= nested_nums(e, False)
+    return out
 
 
 def triggers(c):
     t = set()
-    if c["op"] == "UniqueItems" and has_cross_numeric(c.get("data")):
+    if c["op"] == "UniqueItems" and has_cross_type(c.get("data")):
         t.add("C14-unique-items-distinguishes-numeric-types")
     if c["op"] in ("Enum", "EnumCase"):
         d = c.get("data") or {}
-        if isinstance(d.get("v"), (int, float)) and not isinstance(d.get("v"), bool):
+        if _is_num(d):
             t.add("C14-enum-lossy-conversion")   # a number converted to the member's type (wrap, truncation, rune)
+        # numbers nested in a slice/map: the conversion fallback works on the outer value only
+        dn = nested_nums(d)
+        for mem in ((c.get("enum") or {}).get("v") or []):
+            mn = nested_nums(mem)
+            if any(x == y and tx != ty for (x, tx) in dn for (y, ty) in mn):
+                t.add("C14-enum-nested-numeric-types")
     return t
 
 
@@ -75,7 +106,7 @@ def correspond(ctx, C):
             ties.append((c, {"what": "model and implementation disagree (tie broken)", "go": g["err"], "impl": m["impl"], "spec": m["spec"]}))
         if g["err"] != m["spec"]:
             t = triggers(c) & set(known)
-            if t:
+            if t and g["err"] == m["impl"]:   # a listed finding explains it only if the model of the code reproduces it
                 for k in t:
                     attributed[k] = attributed.get(k, 0) + 1
             else:
